@@ -237,7 +237,7 @@ func (h *harnessRun) runPath(sess *session, prefix []int) {
 						Path: append([]int(nil), p.trace...), Panic: panicMsg})
 				}
 			case engineErr:
-				h.noteInconclusive(r.Error() + " at " + i.where())
+				h.noteInconclusive(r.Error() + " at " + i.where() + " stack: " + i.stack())
 				pruned = true
 			default:
 				h.noteInconclusive(fmt.Sprintf("engine crash: %v at %s\n%s", r, i.where(), firstLines(string(debug.Stack()), 30)))
